@@ -26,13 +26,19 @@ PROBES = ['fault_inside_pushed_block', 'handler_ran_after_fault',
           'in_batch_param_site', 'sort_key_cmp_site', 'attr_site',
           'falsy_mapping_pushed', 'tree_header_footer_document',
           'recursive_sub_template_reentered', 'same_object_pushed_twice',
-          'client_path_of_two',
+          'client_path_of_two', 'guard_refused_item',
+          'tree_leaves_expand_document',
+          'guard_refused_item_skipped',
           'fault_between_in_push_and_try', 'let_arg_fault', 'persistent_fault']
 RULE = ('programs: seeded ASTs over text/var/if/elif/else/unless/call/in '
         '(lists, tuples, iterators, lazy lists, mappings, batches, sort, '
         'sort_expr, reverse_expr)/with (mapping, only)/let/try-except-else/'
         'try-finally/raise/return/sub-templates with defaults/dtml-tree '
-        '(branches, branches_expr, expand_all), depth <= 4, a sentinel '
+        '(branches, branches_expr, expand_all, header / footer / leaves / '
+        'expand documents, skip_unauthorized), depth <= 4; one program in '
+        'five runs with security guards whose item guard refuses every '
+        'index j modulo m (dtml-in and dtml-tree with and without '
+        'skip_unauthorized); a sentinel '
         'call-back between every two nodes of every body; plus a '
         'self-recursive family that trips the level>200 guard.  Per program: '
         'fault-free run, then every (site x first/last invocation x kind in '
@@ -73,6 +79,7 @@ class Gen:
         self.subs = {}
         self.nodes = 0
         self.req = {}
+        self.guard = False      # C08 only: templates run with a refusing guard
 
     def site(self, prefix):
         self.ns += 1
@@ -283,6 +290,8 @@ class Gen:
             opts['no_push_item'] = 1
         if r.random() < 0.1:
             opts['prefix'] = 'px'
+        if self.guard and r.random() < 0.6:
+            opts['skip_unauthorized'] = 1
         body = self.body(depth + 1)
         if kind == 'map' and r.random() < 0.3:
             # the item pushed by the loop is pushed again by a dtml-with
@@ -373,21 +382,40 @@ class Gen:
             opts['branches'] = 'kids_m'
         # header / footer documents: sub-templates the tag calls itself,
         # with keyword arguments, around the children of an expanded node
-        for opt in ('header', 'footer'):
-            if 'sub' in self.enabled and r.random() < 0.35 and \
+        for opt in ('header', 'footer', 'leaves', 'expand'):
+            if 'sub' in self.enabled and r.random() < (
+                    0.35 if opt in ('header', 'footer') else
+                    0.25 if opt == 'leaves' else 0.12) and \
                     len(self.subs) < 4:
                 name = 'T%d' % (len(self.subs) + 1)
                 self.subs[name] = None
                 saved = self.enabled
-                self.enabled = [k for k in saved if k not in ('sub', 'tree')]
+                # (a tree inside a leaves / expand document runs as a
+                # sub-document of the enclosing tree)
+                self.enabled = [k for k in saved if k != 'sub' and (
+                    k != 'tree' or (opt in ('leaves', 'expand') and
+                                    r.random() < 0.5))]
                 b = self.body(self.maxdepth - 1)
                 self.enabled = saved
                 self.subs[name] = {'body': b, 'defaults': r.choice(
                     [{}, {'dflt': 'd'}])}
                 opts[opt] = name
         self.script[t] = {'treeroot': self.tree_nodes(t, 0, [0])}
-        if r.random() < 0.6:
+        if self.guard and r.random() < 0.6:
+            opts['skip_unauthorized'] = 1
+        to_leaf = 'leaves' in opts and r.random() < 0.7
+        if not to_leaf and r.random() < 0.6:
             self.req['expand_all'] = 1
+        elif to_leaf or r.random() < 0.6:
+            # the request expands one node (a leaf, often): tree-e carries
+            # the path from the root, encoded by the package itself
+            node, path = self.script[t]['treeroot'], []
+            while True:
+                path.append(node['id'])
+                if not node['kids'] or (not to_leaf and r.random() < 0.3):
+                    break
+                node = r.choice(node['kids'])
+            self.req['tree_e_path'] = path
         return {'k': 'tree', 'src': {'site': t, 'how': 'name'}, 'opts': opts,
                 'body': self.body(self.maxdepth)}
 
@@ -450,12 +478,21 @@ def gen_case(seed, tier):
     if 'tree' in enabled and r.random() < 0.5:
         enabled.remove('tree')
     g = Gen(r, enabled, r.choice([1, 2, 3, 3, 4]), r.choice([1, 2, 3]))
+    # now and then the templates run with security guards, and the item
+    # guard refuses every element whose index is j modulo m: the loop and
+    # tree code that skips (skip_unauthorized) or reports refused elements
+    # sits between pushes and pops as well
+    guard = None
+    if ('in' in enabled or 'tree' in enabled) and r.random() < 0.2:
+        m = r.choice([1, 2, 2, 3])
+        guard = [m, r.randrange(m)]
+        g.guard = True
     top = g.body(0, minn=1)
     subs = {k: v for k, v in g.subs.items() if v}
     return {'kind': 'prog', 'body': top, 'subs': subs, 'script': g.script,
             'req': g.req, 'mode': r.choice(['sub', 'sub', 'top']),
             'level0': r.randint(0, 5), 'pair_seed': r.randint(0, 10 ** 9),
-            'plans': None}
+            'plans': None, 'guard': guard}
 
 
 # ------------------------------------------------------------------ runner
@@ -467,11 +504,43 @@ class TreeEnv(E.RunEnv):
         return E.RunEnv.materialise(self, r, name, k)
 
 
+GUARD_HITS = [0]
+_GCLASSES = {}
+
+
+def guarded_class(guard):
+    """HTML with security guards: attribute access is allowed, item access
+    refuses every integer index that is j modulo m"""
+    key = tuple(guard)
+    if key not in _GCLASSES:
+        from DocumentTemplate import HTML
+        from zExceptions import Unauthorized
+        m, j = guard
+
+        def getitem(ob, index):
+            if isinstance(index, int) and index % m == j:
+                GUARD_HITS[0] += 1
+                raise Unauthorized('item %d refused' % index)
+            return ob[index]
+
+        class GHTML(HTML):
+            def guarded_getattr(self, ob, name, *default):
+                return getattr(ob, name, *default)
+
+            def guarded_getitem(self, ob, index):
+                return getitem(ob, index)
+        GHTML.plain_getitem = staticmethod(getitem)
+        _GCLASSES[key] = GHTML
+    return _GCLASSES[key]
+
+
 def prepare(case):
     """compile once per case (the compiled template is shared by all fault
     variants, as a long-lived template object would be)"""
     from DocumentTemplate import HTML
     import TreeDisplay  # noqa: F401  registers dtml-tree
+    if case.get('guard'):
+        HTML = guarded_class(case['guard'])
     if case['kind'] == 'reclimit':
         inner = ('<dtml-var S_r_0><dtml-try><dtml-var REC><dtml-except %s>'
                  '<dtml-var H_r></dtml-try><dtml-var S_r_1>'
@@ -506,6 +575,10 @@ def execute(case, prep, plan):
     env.extra_names.update({'X_EA': E.EA, 'X_EAB': E.EAB,
                             'URL': 'http://h/p', 'RESPONSE': Resp()})
     env.extra_names.update(case.get('req', {}))
+    path = env.extra_names.pop('tree_e_path', None)
+    if path:
+        from TreeDisplay import TreeTag
+        env.extra_names['tree-e'] = TreeTag.encode_seq(path)
     kw = env.namespace(prep['names'])
     outcome = None
     md0 = None
@@ -518,6 +591,11 @@ def execute(case, prep, plan):
             md0._push({'pre2': 2})
             md0.guarded_getattr = None
             md0.guarded_getitem = None
+            if case.get('guard'):
+                # what a guarded top-level call would have put there
+                md0.guarded_getattr = getattr
+                md0.guarded_getitem = guarded_class(
+                    case['guard']).plain_getitem
             md0.level = case.get('level0', 0)
             before = (list(md0._data), md0.level)
             res = prep['top'](None, md0, **kw)
@@ -680,7 +758,13 @@ def _run_case(case):
 
     def one(plan):
         nonlocal evaluations, steps
+        GUARD_HITS[0] = 0
         env, outcome, md0, before = execute(case, prep, plan)
+        if GUARD_HITS[0]:
+            faults['guard.deny'] = faults.get('guard.deny', 0) + GUARD_HITS[0]
+            probe('guard_refused_item')
+            if 'skip_unauthorized' in prep['src']:
+                probe('guard_refused_item_skipped')
         evaluations += 1
         steps += len(env.log)
         dg.update(repr((sorted(plan.items()), outcome,
@@ -745,6 +829,8 @@ def _run_case(case):
             probe('client_path_of_two')
         if ' header="' in prep['src'] or ' footer="' in prep['src']:
             probe('tree_header_footer_document')
+        if ' leaves="' in prep['src'] or ' expand="' in prep['src']:
+            probe('tree_leaves_expand_document')
         if any(e.md is not None and any(
                 isinstance(x, E.Map) and not len(x) for x in e.data)
                 for e in env.log):
@@ -866,6 +952,8 @@ def shrink(case):
                 for f in SINGLE_KINDS:
                     yield dict(case, plans=[{name: {o: f}}])
         return
+    if case.get('guard'):
+        yield dict(case, guard=None)
     # 2. structural: drop nodes / replace a block by its body
     def bodies(b):
         n = b['n']
